@@ -8,6 +8,7 @@ import (
 	_ "github.com/google/pprof/verif/checks/c04"
 	_ "github.com/google/pprof/verif/checks/c05"
 	_ "github.com/google/pprof/verif/checks/c06"
+	_ "github.com/google/pprof/verif/checks/c07"
 	_ "github.com/google/pprof/verif/checks/c08"
 	_ "github.com/google/pprof/verif/checks/c11"
 	_ "github.com/google/pprof/verif/checks/c12"
